@@ -68,6 +68,15 @@ def runMon (f : List String) : String :=
   | some "dr" => monDR c a
   | some "conv" => Conv.monitor pid c a
   | some "sched" => Conv.monitor pid c a
+  | some "tlsclose" =>
+    (match a with
+     | [r] =>
+       (match r.splitOn "=" with
+        | ["logouts", v] =>
+          if (v.splitOn ",").all (· == "1") then "ok"
+          else "bad: C08 a session received a number of Logout calls other than one while the server was ended during a STARTTLS upgrade: " ++ v
+        | _ => "bad: unparsable answer")
+     | _ => "bad: unparsable answer")
   | some "rt" => Codec.monitorRT c a
   | some "parse" => Codec.monitorParse c a
   | some "cconv" => ClientGlue.monitor pid c a
@@ -95,6 +104,8 @@ def runCase (line : String) : String :=
   | some "sched" => Sched.probeSched f
   -- several connections of one server at once, all fed the same input: each must be answered like a connection of its own
   | some "multi" => "same"
+  -- the server is ended while a STARTTLS upgrade logs the plaintext session out: the specification — every session exactly one Logout
+  | some "tlsclose" => "logouts=1"
   | some p => "DRIVER-UNKNOWN-PROBE " ++ p
   | none => "DRIVER-EMPTY"
 
